@@ -3,7 +3,8 @@ import itertools
 import json
 
 ID = "C01"
-PROP_FILES = ["Properties/C01.v", "Properties/C01_scanner.v", "Properties/C01_text.v"]
+PROP_FILES = ["Properties/C01.v", "Properties/C01_scanner.v", "Properties/C01_text.v", "Properties/C01_pairs.v"]
+BINOPS13 = ["|", "==", "!=", "<=", "<", ">=", ">", "-", "+", "*", "/", ":", "**"]
 THEOREMS = ["C01_parse_sound", "C01_parse_iff", "C01_grammar_unambiguous", "C01_fuel_enough",
             "C01_grouping_transparent", "C01_example", "C01_refuted_without_eof_check"]
 ASSUMPTIONS = [
@@ -192,6 +193,11 @@ def gen(rng, tier):
     cases = [{"s": t, "kind": "fixed"} for t in FIXED]
     cases += [{"s": t, "kind": "non-ascii", "nonascii": True, "expect": e} for t, e in NON_ASCII]
     cases += _after_cases(rng, 3000 if tier == "thorough" else 300)
+    # the complete table of operator pairs (Properties/C01_pairs.v): every ordered pair, tight and spaced
+    for o1 in BINOPS13:
+        for o2 in BINOPS13:
+            cases.append({"s": f"x1{o1}np.log{o2}z_2", "kind": "pairs"})
+            cases.append({"s": f"a {o1}  b{o2} c", "kind": "pairs"})
     kmax25 = 4 if tier == "thorough" else 3
     for k in range(1, kmax25 + 1):
         for tup in itertools.product(ALPHA25, repeat=k):
